@@ -162,6 +162,7 @@ func GoLangOpts() *LanguageOpts {
 		"openbsd":   true,
 		"plan9":     true,
 		"solaris":   true,
+		"wasip1":    true,
 		"windows":   true,
 		"zos":       true,
 
